@@ -336,6 +336,7 @@ func (this *RaftGroup) reportUnreachable(nodeId uint64) {
 }
 
 func (this *RaftGroup) reportSnapshot(nodeId uint64, status etcdRaft.SnapshotStatus) {
+	verifEvent(this, "reportSnapshot", nodeId, status)
 	this.raft.ReportSnapshot(nodeId, status)
 }
 
